@@ -1,0 +1,35 @@
+//! verification hooks, only compiled with `--cfg may_verif`
+use std::sync::atomic::{AtomicUsize, Ordering};
+
+static POINT: AtomicUsize = AtomicUsize::new(0);
+static SLEEP: AtomicUsize = AtomicUsize::new(0);
+
+/// install the schedule point hook and the virtual sleep hook
+pub fn install(point: fn(&'static std::panic::Location<'static>), sleep: fn(u64)) {
+    POINT.store(point as usize, Ordering::SeqCst);
+    SLEEP.store(sleep as usize, Ordering::SeqCst);
+}
+
+/// a schedule point, called before every shared memory operation
+#[inline]
+#[track_caller]
+pub fn point() {
+    let p = POINT.load(Ordering::Relaxed);
+    if p != 0 {
+        let f: fn(&'static std::panic::Location<'static>) = unsafe { std::mem::transmute(p) };
+        f(std::panic::Location::caller());
+    }
+}
+
+/// virtual sleep, return false if no hook installed
+#[inline]
+pub fn sleep(ns: u64) -> bool {
+    let p = SLEEP.load(Ordering::Relaxed);
+    if p != 0 {
+        let f: fn(u64) = unsafe { std::mem::transmute(p) };
+        f(ns);
+        true
+    } else {
+        false
+    }
+}
